@@ -103,7 +103,7 @@ fn gen_rule(r: &mut Rng) -> String {
     };
     let mut opts = vec![format!("removeparam={}", name)];
     if r.pct(15) {
-        opts.push(r.pick(&["xhr", "document", "script", "~xhr", "subdocument", "image"]).to_string());
+        opts.push(r.pick(&["xhr", "document", "script", "~xhr", "subdocument", "image", "frame", "doc", "~subdocument", "~document", "subdocument,script"]).to_string());
     }
     if r.pct(10) {
         opts.push(format!("domain={}", r.pick(HOSTS)));
@@ -131,6 +131,7 @@ fn gen_other(r: &mut Rng) -> String {
 
 pub fn run(seed: u64, n: usize, out: &mut Out) {
     let mut r = Rng::new(seed);
+    crate::c12::type_table_oracle(out);
     for _ in 0..n {
         let nr = 1 + r.below(4);
         let mut lines: Vec<String> = (0..nr).map(|_| gen_rule(&mut r)).collect();
@@ -175,7 +176,7 @@ pub fn run(seed: u64, n: usize, out: &mut Out) {
                 1 => url.clone(),
                 _ => format!("https://{}/", r.pick(HOSTS)),
             };
-            let ty = r.pick(&["xhr", "document", "script", "subdocument", "image", "other"]);
+            let ty = r.pick(&["xhr", "document", "script", "subdocument", "image", "other", "sub_frame", "main_frame", "xmlhttprequest", "stylesheet", "websocket"]);
             let req = match Request::new(&url, &src, ty) {
                 Ok(q) => q,
                 Err(_) => continue,
